@@ -27,10 +27,10 @@ import (
 
 	"github.com/thought-machine/please/src/cache"
 	"github.com/thought-machine/please/src/cli"
-	logging "gopkg.in/op/go-logging.v1"
 	"github.com/thought-machine/please/src/core"
 	"github.com/thought-machine/please/verifharness/c09/tree"
 	"github.com/thought-machine/please/verifharness/lib"
+	logging "gopkg.in/op/go-logging.v1"
 )
 
 // A Case is one executable scenario (and the replay witness).
@@ -646,7 +646,7 @@ func main() {
 			"faulted_retrieves_reported_as_miss": retrieveFaultMiss, "cut_retrieves_that_still_restored_everything": retrieveFaultCompleteHit,
 			"violations_by_fault_kind": byFault, "harness_store_retries": storeRetries,
 			"timing_dependent_cmd_faulted_stores_whose_stdin_stream_was_a_complete_archive": cmdStreamWellFormedAfterCancel,
-			"faultless_round_trips_that_missed": faultlessMiss, "faultless_miss_example": faultlessMissExample,
+			"faultless_round_trips_that_missed":                                             faultlessMiss, "faultless_miss_example": faultlessMissExample,
 			"space": fmt.Sprintf("names %q contents %q symlink targets %q depth<=%d entries<=%d + one tree with a 70 KB file; declarations top|leaf; command cache: store faults on %d trees, retrieve cuts on %d trees",
 				sp.Names, sp.Contents, sp.Targets, sp.MaxDepth, sp.MaxEntries, len(cmdTrees), len(cutTrees))},
 	})
